@@ -299,8 +299,11 @@ def run(ctx):
     ctx.rule("R04.5", "no spurious error: every parse starts from emptied value state (R14.2) and an option claims a token only under its own name or letter (R01.5, R01.7, R01.8)")
     if ctx.prop == "C04" and not getattr(ctx, "_sharing", False):
         from .common import share
-        share(ctx, "C14", ("R14.2",), "R04.5", "reset obligations shared with C14", 3)
+        share(ctx, "C14", ("R14.2", "R14.3"), "R04.5", "reset obligations shared with C14", 3)
         share(ctx, "C01", ("R01.5", "R01.7", "R01.8"), "R04.5", "matching obligations shared with C01", 6)
+        # ---- R04.6: documented conditions that must raise do raise (positional limit in every mode; syntax check for every token ahead of `--`)
+        ctx.rule("R04.6", "the documented rejections `more positionals than accepted` and `malformed dash token ahead of --` are in force on every path (R12.3, R12.6 re-evaluated)")
+        share(ctx, "C12", ("R12.3", "R12.6"), "R04.6", "rejection obligations shared with C12", 4)
     ctx.assume("beyond R04.5 the accept/reject boundary itself (error raised *exactly* under the documented conditions) is not decided")
 
 
